@@ -6,6 +6,8 @@
  *   FSMON_LOG=<prefix>        trace: one line per interposed call -> <prefix>.<pid>
  *   FSMON_KILL_AT=<k>         SIGKILL self immediately before the k-th counted call
  *   FSMON_KILL_CLASS=mutating|write   (write = mutating + pipe writes)
+ *   FSMON_KILL_SIG=<n>                 signal raised at the kill point (default 9). A catchable signal is raised ONCE;
+ *                                      if the process handles it, it goes on running from there
  *   FSMON_FAIL_AT=<k>:<errno> k-th counted call returns -1/errno, not executed
  *   FSMON_FAIL_CLASS=mutating|write|rename|fsync|datawrite
  *   FSMON_GATE=<unix socket>  gate mode (see below), FSMON_ROOT=<dir>
@@ -47,6 +49,7 @@ static int g_logfd = -1;
 static long g_kill_at = 0, g_fail_at = 0;
 static int g_fail_errno = 5;
 static int g_kill_class = 0;  /* 0 mutating, 1 write */
+static int g_kill_sig = SIGKILL;
 static int g_fail_class = 0;  /* 0 mutating,1 write,2 rename,3 fsync,4 datawrite */
 static long g_count_kill = 0, g_count_fail = 0;
 static unsigned long g_seq = 0;
@@ -222,6 +225,8 @@ __attribute__((constructor)) static void fsmon_init(void) {
     if (k) g_kill_at = atol(k);
     const char *kc = getenv("FSMON_KILL_CLASS");
     if (kc && strcmp(kc, "write") == 0) g_kill_class = 1;
+    const char *ks = getenv("FSMON_KILL_SIG");
+    if (ks && atoi(ks) > 0) g_kill_sig = atoi(ks);
     const char *f = getenv("FSMON_FAIL_AT");
     if (f) {
       g_fail_at = atol(f);
@@ -282,8 +287,9 @@ static int pre_mut(int kind, const char *op, const char *p1, const char *p2) {
       char ex[64];
       snprintf(ex, sizeof ex, "k=%ld", c);
       logline("KILL", 0, 0, p1, p2, op);
-      syscall(SYS_kill, getpid(), SIGKILL);
-      for (;;) syscall(SYS_pause);
+      syscall(SYS_kill, getpid(), g_kill_sig);
+      if (g_kill_sig == SIGKILL) for (;;) syscall(SYS_pause);
+      /* a catchable signal: default disposition ends the process here; a handler lets it carry on */
     }
   }
   if (g_fail_at > 0 && in_class(g_fail_class, kind)) {
